@@ -225,6 +225,7 @@ def _exec_task(sim, pool, worker, func, blob, obj):
         parent_entries[(mname, attr)] = _capture(mod, attr)
         _install(mod, attr, entry)
     sim.task_depth += 1
+    sim.__dict__["fail_counts"] = {}  # "first attempt fails" (F4 flaky) is counted per task execution
     consumed = False
     try:
         try:
